@@ -1051,6 +1051,7 @@ fn gen(seed: u64, run: u64, _tier: Tier) -> Plan {
             dup_chunks: *rng.pick(&[0u32, 4]),
             overlap_first: None,
             zero_byte_only: false,
+            offsets_style: 0,
         };
         if i > 0 && rng.chance(1, 3) {
             s.overlap_first = Some((rng.next_u64(), 8));
